@@ -25,7 +25,8 @@ except ImportError:
 
 def _get_color_from_string(a_string: str, colors: bool):
     if colors:
-        hash_str = f"{crc32(a_string.encode('utf-8'))}"
+        # zero padded, so that there are always 6 digits for the color
+        hash_str = f"{crc32(a_string.encode('utf-8')):010d}"
         return f"#{hash_str[2:8]}"
     return "#F0F0F0"
 
